@@ -249,6 +249,59 @@ func C03(tier string) int {
 			res.Violate(v.key, v.what, v.rep)
 		}
 	})
+	// ---- single faults: whatever fails on the way, nothing handed to the transport may carry bto/bcc ----
+	var faultCases []c03case
+	seenShape := map[string]int{}
+	for _, c := range cases {
+		if len(c.hidden) == 0 || c.kind == ap.SocialOnly {
+			continue
+		}
+		shapeKey := strings.SplitN(c.name, " ", 2)[0]
+		if seenShape[shapeKey] >= 4 {
+			continue
+		}
+		seenShape[shapeKey]++
+		faultCases = append(faultCases, c)
+	}
+	parallel(len(faultCases), func(i int) {
+		c := faultCases[i]
+		url := outbox(Alice)
+		if c.entry == "PostInbox" {
+			url = inbox(Alice)
+		}
+		sc := &Scenario{Name: c.name, Kind: c.kind, Entry: c.entry, URL: url, Body: c.body, Tweak: c.tweak}
+		type viol struct{ key, what string; rep M }
+		var vs []viol
+		n := 0
+		e := &mc.Explorer{}
+		e.Budget = [3]int{0, 1, 0}
+		e.Run = func(x *mc.Exec) bool {
+			out := sc.Exec(x, true)
+			n++
+			if out.Panic != nil {
+				return true
+			}
+			f := faultOps(x)
+			for _, d := range out.App.Deliveries {
+				var pm interface{}
+				json.Unmarshal(d.Payload, &pm)
+				if leaks := findHidden(pm, "", false, 0); len(leaks) > 0 {
+					vs = append(vs, viol{fmt.Sprintf("hidden-recipient-in-payload|under-fault|%s", strings.Join(f, ",")),
+						fmt.Sprintf("%s with faults %v: payload carries %v: %s", c.name, f, leaks, string(d.Payload)), M{"check": "C03", "case": c.name, "body": c.body, "choices": x.Choices(), "faults": f}})
+				}
+			}
+			return true
+		}
+		e.Explore()
+		mu.Lock()
+		defer mu.Unlock()
+		res.Evaluations += n
+		res.Nontrivial[fmt.Sprintf("fault|%s", c.name)] = struct{}{}
+		for _, v := range vs {
+			res.Violate(v.key, v.what, v.rep)
+		}
+	})
+	res.Extra["single_fault_cases"] = len(faultCases)
 	res.Sample(M{"case": cases[len(cases)/3].name, "body": cases[len(cases)/3].body})
 	res.Sample(M{"case": cases[len(cases)-1].name, "body": cases[len(cases)-1].body})
 
